@@ -63,6 +63,11 @@ pub fn generate(rng: &mut Rng, tier: Tier) -> Scn {
 /// with its own errno: the roll must report the failure and destroy nothing.
 pub fn generate_obst(rng: &mut Rng, tier: Tier) -> Scn {
     let mut s = generate(rng, tier);
+    if cfg!(feature = "background_rotation") {
+        // a failing background rotation is only printed, `roll` cannot report it:
+        // no obstructions in that build (as for injected faults)
+        return s;
+    }
     if let RollerSpec::Fixed { pat, base, count } = &s.roller {
         if *count < 2 {
             s.roller = RollerSpec::Fixed { pat: *pat, base: *base, count: rng.range(2, 4) as u32 };
